@@ -583,7 +583,7 @@ func (r *Request) reply(payload []byte) {
 	r.replied = true
 	verifPoint("publish.enter", r.msg.Reply)
 	r.s.tracef("<== %s: %s", r.msg.Subject, payload)
-	err := r.s.nc.Publish(r.msg.Reply, payload)
+	err := r.s.publish(r.msg.Reply, payload)
 	if err != nil {
 		r.s.errorf("Error sending reply %s: %s", r.msg.Subject, err)
 	}
